@@ -74,10 +74,20 @@
   (pattern (seqmark a off n))
   (trigger seqmark))
 
-(lemma memb_def (axiom)
+; memb(d, off, n, r, x) <=> exists k in [0, n): normax(d[off+k], r) = x, in skolemised form:
+; membw is the witness position (quantifier-free elimination rule) ...
+(lemma memb_elim (axiom) (eager)
+  (vars (d (Array Int Int)) (off Int) (n Int) (r Int) (x Int))
+  (hyp (memb d off n r x))
+  (concl (and (<= 0 (membw d off n r x)) (< (membw d off n r x) n) (= (normax (select d (+ off (membw d off n r x))) r) x)))
+  (pattern (memb d off n r x))
+  (trigger memb))
+
+; ... and any position holding x establishes membership (introduction rule)
+(lemma memb_intro (axiom) (eager)
   (vars (d (Array Int Int)) (off Int) (n Int) (r Int) (x Int))
   (hyp true)
-  (concl (= (memb d off n r x) (exists ((k Int)) (and (<= 0 k) (< k n) (= (normax (select d (+ off k)) r) x)))))
+  (concl (forall ((k Int)) (=> (and (<= 0 k) (< k n) (= (normax (select d (+ off k)) r) x)) (memb d off n r x))))
   (pattern (memb d off n r x))
   (trigger memb))
 
@@ -113,11 +123,54 @@
   (pattern (nkept d off n r a) (nkept d off n r b))
   (trigger nkept))
 
-; nkept only depends on which positions are axes
+; nkept only depends on which positions are axes (instantiated on request: marker nkcong)
 (lemma nkept_cong
   (vars (d (Array Int Int)) (off Int) (n Int) (r Int) (e (Array Int Int)) (offe Int) (m Int) (s Int) (i Int))
   (induct i)
   (hyp (forall ((x Int)) (=> (and (<= 0 x) (< x i)) (= (memb d off n r x) (memb e offe m s x)))))
   (concl (= (nkept d off n r i) (nkept e offe m s i)))
-  (pattern (nkept d off n r i) (nkept e offe m s i))
+  (pattern (nkcong d off n r e offe m s i))
+  (trigger nkcong))
+
+; nnot1(s, off, i): how many of the extents s[off .. off+i) differ from 1
+(lemma nnot1_base (axiom)
+  (vars (s (Array Int Int)) (off Int) (i Int))
+  (hyp (<= i 0))
+  (concl (= (nnot1 s off i) 0))
+  (pattern (nnot1 s off i))
+  (trigger nnot1))
+
+(lemma nnot1_step (axiom)
+  (vars (s (Array Int Int)) (off Int) (i Int))
+  (hyp (> i 0))
+  (concl (= (nnot1 s off i) (+ (nnot1 s off (- i 1)) (ite (= (select s (+ off (- i 1))) 1) 0 1))))
+  (pattern (nnot1 s off i))
+  (trigger nnot1))
+
+(lemma nnot1_bounds
+  (vars (s (Array Int Int)) (off Int) (i Int))
+  (induct i)
+  (hyp (>= i 0))
+  (concl (and (<= 0 (nnot1 s off i)) (<= (nnot1 s off i) i)))
+  (pattern (nnot1 s off i))
+  (trigger nnot1))
+
+; when the axes are exactly the positions of extent 1, both counts agree
+(lemma nkept_is_nnot1
+  (vars (d (Array Int Int)) (off Int) (n Int) (r Int) (s (Array Int Int)) (soff Int) (i Int))
+  (induct i)
+  (hyp (forall ((x Int)) (=> (and (<= 0 x) (< x i)) (= (memb d off n r x) (= (select s (+ soff x)) 1)))))
+  (concl (= (nkept d off n r i) (nnot1 s soff i)))
+  (pattern (nkept d off n r i) (nnot1 s soff i))
   (trigger nkept))
+
+; n strictly increasing integers below b: the m-th one is at most b - n + m
+(lemma strictly_increasing_upper
+  (vars (a (Array Int Int)) (off Int) (n Int) (b Int))
+  (induct n (also b))
+  (monotone)
+  (hyp (and (forall ((k Int)) (=> (and (<= 0 k) (< k (- n 1))) (< (select a (+ off k)) (select a (+ off (+ k 1))))))
+            (forall ((k Int)) (=> (and (<= 0 k) (< k n)) (< (select a (+ off k)) b)))))
+  (concl (forall ((m Int)) (=> (and (<= 0 m) (< m n)) (<= (select a (+ off m)) (+ (- b n) m)))))
+  (pattern (seqmarkb a off n b))
+  (trigger seqmarkb))
